@@ -291,14 +291,23 @@ def run(ctx):
     ctx.assumptions += [
         'token texts and names are ASCII; numeric tokens have at most 15 significant digits',
         'update of $ABBR / statement renumbering when thetas are removed is outside this check (C02)',
+        'NOT COVERED: structural random-effect edits (add / remove / join / split eta or eps: '
+        'update_random_variable_records, create_omega_single/block, OmegaRecord.remove) - no model, no tie',
+        'NOT COVERED: the numeric conversion covariance <-> SD / CORRELATION / CHOLESKY (numpy, LAPACK) and float '
+        'arithmetic (** 0.5, ** 2): engines; the harness recomputes the converted array and hands it to the model; '
+        're-read deviations of scaled records are accepted only below 1e-12 relative',
+        'NOT COVERED: BLOCK records that pharmpy repairs on read (not positive definite) are skipped and counted',
+        'update_thetas with added / removed thetas and name preservation: tied by correspondence, not proved',
     ]
-    ctx.coverage['source_sha'] = source_sha(
+    anchors = (
         'src/pharmpy/model/external/nonmem/records/theta_record.py',
         'src/pharmpy/model/external/nonmem/records/omega_record.py',
         'src/pharmpy/model/external/nonmem/update.py', 'src/pharmpy/model/external/nonmem/parsing.py',
         'src/pharmpy/internals/sequence/lcs.py', 'src/pharmpy/internals/parse/generic.py',
         'src/pharmpy/model/external/nonmem/records/grammars/theta_record.lark',
-        'src/pharmpy/model/external/nonmem/records/grammars/omega_record.lark')
+        'src/pharmpy/model/external/nonmem/records/grammars/omega_record.lark',
+        'src/pharmpy/model/random_variables.py', 'src/pharmpy/model/parameters.py', 'src/pharmpy/internals/math.py')
+    ctx.coverage['source_sha'] = source_sha(*anchors)
     finding_probes(ctx)
     reg = sorted((VERIF / 'regress' / 'C04').glob('*.json'))
     nlay = 198 if ctx.tier == 'quick' else 2400
@@ -344,6 +353,10 @@ def run(ctx):
         'rv_steps': sum(1 for s, k, i, t, st in rows if s.get('kind') == 'rv'),
         'rv_steps_with_scaled_block': sum(1 for s, k, i, t, st in rows if i.get('scaled_block')),
     }
+    if source_sha(*anchors) != ctx.coverage['source_sha']:
+        ctx.notes.append('WARNING: anchor source files under /repo changed while this check was running '
+                         '(results mix two versions of the code)')
+        ctx.log('WARNING: /repo sources changed during the run')
     ctx.coverage['samples'] = [{'spec': s, 'step': k, 'tags': t} for s, k, i, t, st in rows[:3]] + \
                               [{'spec': s, 'step': k, 'tags': t} for s, k, i, t, st in rows if s.get('kind') == 'rv'][:2]
 
